@@ -132,7 +132,7 @@ func genName(r *rand.Rand) string {
 	return s
 }
 
-var nErr, nOK, nEscapeNames int64
+var nErr, nOK, nEscapeNames, nSymlinked, nRaces, nRaceWinners int64
 
 func writeCase(r *rand.Rand, base string, idx int) {
 	run.Eval(1)
@@ -187,6 +187,37 @@ func writeCase(r *rand.Rand, base string, idx int) {
 	}
 	if anyOutside {
 		atomic.AddInt64(&nEscapeNames, 1)
+	}
+	// Sometimes the path of an entry already holds a symbolic link whose target is not a
+	// directory (dangling - towards a place outside or inside the directory - or an existing
+	// file): an existing directory entry that Write must neither replace nor write through.
+	// (Symlinked *directories* on the way to an entry stay excluded, see Assume.)
+	if r.Intn(4) == 0 {
+		for i, e := range ents {
+			rel, in := resolve(e.Name)
+			if !in || r.Intn(2) == 0 {
+				continue
+			}
+			fp := filepath.Join(dir, filepath.FromSlash(rel))
+			if _, lerr := os.Lstat(fp); lerr == nil {
+				continue
+			}
+			if os.MkdirAll(filepath.Dir(fp), 0o777) != nil {
+				continue
+			}
+			target := []string{
+				filepath.Join(parent, fmt.Sprintf("escaped-%d.txt", i)),     // dangling, outside
+				filepath.Join(parent, "mid", fmt.Sprintf("escaped-%d", i)), // dangling, outside
+				filepath.Join(dir, fmt.Sprintf("inside-target-%d", i)),      // dangling, inside
+				filepath.Join(parent, "top.txt"),                           // existing file outside
+				fmt.Sprintf("../../relative-escape-%d", i),                  // dangling, relative
+			}[r.Intn(5)]
+			if os.Symlink(target, fp) == nil {
+				pre = append(pre, rel+" -> "+target)
+				atomic.AddInt64(&nSymlinked, 1)
+			}
+			break
+		}
 	}
 	before := snapshot(parent)
 	var err error
@@ -255,6 +286,87 @@ func writeCase(r *rand.Rand, base string, idx int) {
 		}
 	}
 	run.Distinct(strings.Join(names(ents), "\x00") + "|" + strings.Join(pre, "\x00"))
+}
+
+// raceCase: several extractions of archives naming the same files into one fresh
+// directory at once. O_EXCL means one creator per file: a Write that returned nil
+// created every one of its files, so each of them must hold that Write's data
+// afterwards, and every file must hold the data of exactly one of the writers.
+func raceCase(r *rand.Rand, base string, idx int) {
+	run.Eval(1)
+	dir := filepath.Join(base, fmt.Sprintf("race%d", idx))
+	if os.MkdirAll(dir, 0o777) != nil {
+		return
+	}
+	defer os.RemoveAll(dir)
+	K := 2 + r.Intn(3)
+	nn := 1 + r.Intn(3)
+	var fnames []string
+	for i := 0; i < nn; i++ {
+		fnames = append(fnames, []string{"f", "sub/g", "sub/deep/h", "x y"}[(i+r.Intn(4))%4])
+	}
+	archives := make([]*xt.Archive, K)
+	for k := range archives {
+		a := &xt.Archive{}
+		for _, n := range fnames {
+			a.Files = append(a.Files, xt.File{Name: n, Data: []byte(fmt.Sprintf("writer %d wrote %s %s\n", k, n, strings.Repeat("*", r.Intn(3000))))})
+		}
+		archives[k] = a
+	}
+	errs := make([]error, K)
+	var wg sync.WaitGroup
+	start := make(chan struct{})
+	for k := 0; k < K; k++ {
+		wg.Add(1)
+		go func(k int) {
+			defer wg.Done()
+			<-start
+			errs[k] = txtar.Write(archives[k], dir)
+		}(k)
+	}
+	close(start)
+	wg.Wait()
+	atomic.AddInt64(&nRaces, 1)
+	fail := func(kind, detail string) {
+		if limited(kind) {
+			return
+		}
+		run.Violation(fmt.Sprintf("%s writers=%d names=%q", kind, K, fnames), kind+": "+detail, wcase{kind, nil, fnames, detail})
+	}
+	for k := 0; k < K; k++ {
+		if errs[k] != nil {
+			continue
+		}
+		atomic.AddInt64(&nRaceWinners, 1)
+		for _, f := range archives[k].Files {
+			got, rerr := os.ReadFile(filepath.Join(dir, filepath.FromSlash(f.Name)))
+			if rerr != nil || !bytes.Equal(got, f.Data) {
+				fail("concurrent-extraction-overwrote-a-file", fmt.Sprintf("Write %d of %d concurrent extractions returned nil, but %q now holds %.40q (%v): another extraction wrote over it", k, K, f.Name, got, rerr))
+			}
+		}
+	}
+	seen := map[string]bool{}
+	for _, n := range fnames {
+		if seen[n] {
+			continue
+		}
+		seen[n] = true
+		got, rerr := os.ReadFile(filepath.Join(dir, filepath.FromSlash(n)))
+		if rerr != nil {
+			continue // every writer may have failed before reaching it
+		}
+		owner := -1
+		for k := range archives {
+			for _, f := range archives[k].Files {
+				if f.Name == n && bytes.Equal(f.Data, got) {
+					owner = k
+				}
+			}
+		}
+		if owner < 0 {
+			fail("concurrent-extraction-mixed-content", fmt.Sprintf("%q holds %.60q, which is not the complete data of any single writer", n, got))
+		}
+	}
 }
 
 func names(es []entry) []string {
@@ -467,8 +579,8 @@ func treeCase(r *rand.Rand, base string, idx int, bin string) {
 func main() {
 	vlib.Main("C15", "exploration", 10*time.Minute, func(r *vlib.Run) {
 		run = r
-		r.Rule("Write: archives of 1-6 entries whose names are 1-5 segments from {a,b,.,..,empty,'c d',é,..a,a..,...,sib,dir} joined by '/', optionally absolute or of the form ../dir/..., with duplicates, against a directory with random pre-existing files; the directory sits two levels deep in a sandbox with canary files beside and above it. Round trip: trees of 1-14 text files (nested, dot files/dirs, marker look-alikes, no final newline, empty, invalid UTF-8, CRLF, symlink, empty dir) archived with the real txtar-c (random -a/-quote) and extracted with the real txtar-x. Non-trivial = distinct (names, pre-existing set) / distinct (tree, flags).")
-		r.Assume("file names in trees contain no newline and no leading/trailing blanks (the format cannot carry those); no symlinks inside the target directory of Write")
+		r.Rule("Write: archives of 1-6 entries whose names are 1-5 segments from {a,b,.,..,empty,'c d',é,..a,a..,...,sib,dir} joined by '/', optionally absolute or of the form ../dir/..., with duplicates, against a directory with random pre-existing files and, in a quarter of the cases, a symbolic link (dangling towards outside / inside, or to an existing file) at the path of one entry; the directory sits two levels deep in a sandbox with canary files beside and above it. Concurrent extraction: 2-4 Write calls of archives naming the same files into one fresh directory at once (one creator per file). Round trip: trees of 1-14 text files (nested, dot files/dirs, marker look-alikes, no final newline, empty, invalid UTF-8, CRLF, symlink, empty dir) archived with the real txtar-c (random -a/-quote) and extracted with the real txtar-x. Non-trivial = distinct (names, pre-existing set) / distinct (tree, flags).")
+		r.Assume("file names in trees contain no newline and no leading/trailing blanks (the format cannot carry those); no symlinked directories on the way to an entry inside the target directory of Write (containment is lexical)")
 		base := vlib.Scratch()
 		W := runtime.NumCPU()
 		nw := r.Pick(6000, 300000)
@@ -476,6 +588,13 @@ func main() {
 			rng := r.Rand(fmt.Sprintf("write-%d", w))
 			for i := w; i < nw; i += W {
 				writeCase(rng, base, i)
+			}
+		})
+		nr := r.Pick(400, 20000)
+		vlib.Parallel(W, W, func(w int) {
+			rng := r.Rand(fmt.Sprintf("race-%d", w))
+			for i := w; i < nr; i += W {
+				raceCase(rng, base, i)
 			}
 		})
 		r.Sample(map[string]any{"kind": "write", "entries": []string{"a/../../sib", "b/./x", "/abs", "dir/.."}, "note": "example of generated names"})
@@ -491,6 +610,9 @@ func main() {
 		r.Set("write_returned_error", atomic.LoadInt64(&nErr))
 		r.Set("write_succeeded", atomic.LoadInt64(&nOK))
 		r.Set("archives_with_escaping_name", atomic.LoadInt64(&nEscapeNames))
+		r.Set("write_cases_with_a_symlink_at_an_entry_path", atomic.LoadInt64(&nSymlinked))
+		r.Set("concurrent_extraction_rounds", atomic.LoadInt64(&nRaces))
+		r.Set("concurrent_extractions_that_returned_nil", atomic.LoadInt64(&nRaceWinners))
 		r.Set("trees_round_tripped", atomic.LoadInt64(&nTrees))
 		r.Set("files_quoted", atomic.LoadInt64(&nQuoted))
 		r.Set("files_skipped_for_marker", atomic.LoadInt64(&nSkippedMarker))
